@@ -178,6 +178,29 @@ Theorem C18_content_keyed_prune_refuted :
   pruned_at (Some (Some (prove_key_by_content twin_dict [true]))) [1%nat] = Some true.
 Proof. exact content_keyed_prune_refuted. Qed.
 
+(** Cursors are values: in any program over cursor variables (children taken
+    first and used later, breadth-first walks, cursors kept while their
+    siblings are created, Ref after Prune on another cursor) a Prune on
+    variable [v] prunes the position [v] got when it was created.  The proof a
+    program yields is, by definition of the model, the proof of the walk
+    pruning [prog_prunes]; the correspondence runs such programs on the Go
+    cursors (operation 'prog of c18.multi). *)
+Theorem C18_cursor_position_fixed :
+  forall pre vars pruned v p post,
+  nth_error vars v = Some p ->
+  In p (prog_run vars pruned (pre ++ IPrune v :: post)).
+Proof. exact cursor_position_fixed. Qed.
+
+(** Not vacuous: positions kept in a Go byte slice extended with append —
+    p := c.Ref(0); l := p.Ref(0); r := p.Ref(1); l.Prune() prunes 0/1 instead
+    of 0/0, while a depth-first use is right. *)
+Theorem C18_appended_slice_position_refuted :
+  prog_prunes sibling_prog = [[0%nat; 0%nat]] /\
+  alias_run [] [mkS None 0] [] sibling_prog = [[0%nat; 1%nat]] /\
+  alias_run [] [mkS None 0] [] [IRef 0 0; IRef 1 0; IPrune 2; IRef 1 1] =
+  prog_prunes [IRef 0 0; IRef 1 0; IPrune 2; IRef 1 1].
+Proof. exact appended_slice_position_refuted. Qed.
+
 Print Assumptions C18_interleaving_independent.
 Print Assumptions C18_key_proof_reveals.
 Print Assumptions C18_prune_preserves_level0.
